@@ -152,6 +152,7 @@ def run(ctx):
 
     _diyfp_formulas(ctx)
     _diyfp_product(ctx)
+    _exponent_text(ctx)
     # ------------------------------------------------------------ R18.3
     ps = db.fn("pstrtod")
     n_l = 0
@@ -540,3 +541,137 @@ def _diyfp_product(ctx):
         return
     ctx.ob("R18.7", "DiyFp::operator*|rounded-upper-half", not bad, f.loc(), "%d sample products: %s" % (n, "; ".join(bad) if bad else "all equal the rounded upper half"))
     ctx.floor("R18.7", "sample products evaluated", n, 30)
+
+
+class _Ptr(object):
+    def __init__(self, arr, off):
+        self.arr, self.off = arr, off
+
+
+def _run_buf(db, st, env, out):
+    """Statement interpreter for small character-emitting helpers: ints, pointers into global constant arrays and into
+    the output buffer `out` (a dict offset -> byte), `*p++ = e`, `*p = e`, p[i], compound assignment, if/else."""
+    def arr_of(name):
+        g = db.globals.get(name)
+        if not g or not g.get("init") or g["init"].get("k") != "init":
+            raise ValueError("no constant array " + name)
+        return [int(a.get("v", 0)) for a in g["init"].get("a", [])]
+
+    def ev(n):
+        k = n.get("k")
+        if k in ("int", "chr", "bool"):
+            return int(n["v"])
+        if k == "cast" or (k in ("paren", "temp", "bind") and n.get("e") is not None):
+            v = ev(n["e"])
+            if k == "cast" and isinstance(v, int) and (n.get("ty") or "") == "char":
+                v = ((v + 128) % 256) - 128
+            return v
+        if k == "ref":
+            if n.get("dk") == "global":
+                return _Ptr(n["n"], 0)
+            if n["n"] in env:
+                return env[n["n"]]
+            raise ValueError("unknown name " + n["n"])
+        if k == "idx":
+            p = ev(n["b"])
+            i = ev(n["x"])
+            if not isinstance(p, _Ptr):
+                raise ValueError("subscript of a non-pointer")
+            if p.arr == "@out":
+                return out.get(p.off + i, 0)
+            a = arr_of(p.arr)
+            if not (0 <= p.off + i < len(a)):
+                raise ValueError("read outside %s" % p.arr)
+            return a[p.off + i]
+        if k == "un" and n.get("op") in ("-", "!", "~"):
+            v = ev(n["e"])
+            return {"-": -v, "!": int(not v), "~": ~v}[n["op"]]
+        if k == "un" and n.get("op") in ("post++", "++", "post--", "--"):
+            r = n["e"]
+            old = env[r["n"]]
+            step = 1 if "++" in n["op"] else -1
+            new = _Ptr(old.arr, old.off + step) if isinstance(old, _Ptr) else old + step
+            env[r["n"]] = new
+            return old if n["op"].startswith("post") else new
+        if k == "bin":
+            op = n["op"]
+            if op in ("=", "+=", "-=", "*=", "/=", "%="):
+                v = ev(n["y"])
+                x = n["x"]
+                if x.get("k") == "un" and x.get("op") == "*":
+                    p = ev(x["e"])
+                    if not isinstance(p, _Ptr) or p.arr != "@out" or op != "=":
+                        raise ValueError("store through an unexpected pointer")
+                    out[p.off] = v & 0xFF
+                    return v
+                cur = env.get(x["n"])
+                if op == "=":
+                    new = v
+                elif op == "+=":
+                    new = _Ptr(cur.arr, cur.off + v) if isinstance(cur, _Ptr) else cur + v
+                elif op == "-=":
+                    new = cur - v
+                elif op == "*=":
+                    new = cur * v
+                elif op == "/=":
+                    new = int(cur / v)
+                else:
+                    new = cur - int(cur / v) * v
+                env[x["n"]] = new
+                return new
+            a, b = ev(n["x"]), ev(n["y"])
+            if isinstance(a, _Ptr) and op in ("+", "-") and isinstance(b, int):
+                return _Ptr(a.arr, a.off + (b if op == "+" else -b))
+            if isinstance(b, _Ptr) and op == "+" and isinstance(a, int):
+                return _Ptr(b.arr, b.off + a)
+            table = {"+": lambda: a + b, "-": lambda: a - b, "*": lambda: a * b, "/": lambda: int(a / b), "%": lambda: a - int(a / b) * b,
+                     "<": lambda: int(a < b), ">": lambda: int(a > b), "<=": lambda: int(a <= b), ">=": lambda: int(a >= b),
+                     "==": lambda: int(a == b), "!=": lambda: int(a != b), "&&": lambda: int(bool(a) and bool(b)), "||": lambda: int(bool(a) or bool(b))}
+            if op not in table:
+                raise ValueError("operator " + op)
+            return table[op]()
+        raise ValueError("node " + str(k))
+    k = st.get("k")
+    if k == "block":
+        for s in st.get("s", []):
+            _run_buf(db, s, env, out)
+    elif k == "decls":
+        for d in st["d"]:
+            env[d["n"]] = ev(d["init"]) if d.get("init") is not None else 0
+    elif k == "if":
+        if ev(st["c"]):
+            if st.get("then"):
+                _run_buf(db, st["then"], env, out)
+        elif st.get("else"):
+            _run_buf(db, st["else"], env, out)
+    else:
+        ev(st)
+
+
+def _exponent_text(ctx):
+    """R18.8: pdtoa writes the decimal exponent with WriteExponent(K, buffer).  Run from its statement tree for every K a
+    double can produce (-324 .. 308), the bytes written must be exactly the decimal text of K followed by NUL - a lost
+    tens digit (`1e100` -> `1e10`) is still a valid literal, of another value.  (Seed S7-C18.)"""
+    db = ctx.db
+    ctx.rule("R18.8", "WriteExponent(K, buffer), run from its statement tree, writes str(K) + NUL for every K in [-324, 308]")
+    fs = [f for f in db.functions if f.name.endswith("WriteExponent") and "pdtoa" in f.file]
+    if not fs:
+        ctx.broken("R18.8: WriteExponent not found")
+    f = fs[0]
+    bad = []
+    n = 0
+    try:
+        for K in range(-324, 309):
+            n += 1
+            out = {}
+            env = {f.params[0]["n"]: K, f.params[1]["n"]: _Ptr("@out", 0)}
+            _run_buf(db, f.d["body"], env, out)
+            got = bytes(out.get(i, 0xAA) for i in range(max(out) + 1 if out else 0))
+            want = str(K).encode() + b"\0"
+            if got != want and len(bad) < 4:
+                bad.append("K=%d writes %r, should be %r" % (K, got, want))
+    except ValueError as e:
+        ctx.ob("R18.8", "WriteExponent|decimal-text", False, f.loc(), "not evaluable: %s" % e)
+        return
+    ctx.ob("R18.8", "WriteExponent|decimal-text", not bad, f.loc(), "%d exponents: %s" % (n, "; ".join(bad) if bad else "every one written as its decimal text"))
+    ctx.floor("R18.8", "exponents evaluated", n, 600)
